@@ -190,5 +190,36 @@ mod proofs {
         let p: PE = PE::from(e);
         assert!(matches!(p, ParseError::User { error } if error == e), "C28 From<E> must build User { error }");
     }
+
+    // ------------------------------------------------------------------ Display (BOUNDED: expected.len() <= N)
+    fn expected_n(n: usize) -> Vec<String> {
+        let names = ["a", "b", "c", "d"];
+        let mut v = Vec::new();
+        let mut i = 0;
+        while i < n { v.push(String::from(names[i])); i += 1; }
+        v
+    }
+    fn shown(p: &ParseError<Ch, Ch, Ch>, want: &[u8]) {
+        let mut buf = Buf::new();
+        let r = write!(buf, "{}", p);
+        assert!(r.is_ok(), "C28 Display must not fail on a writer that accepts everything");
+        assert!(bytes_eq(buf.as_bytes(), want), "C28 Display output differs from the documented form");
+    }
+    #[kani::proof] #[kani::unwind(40)]
+    fn display_user() { shown(&ParseError::User { error: Ch(b'e') }, b"e"); }
+    #[kani::proof] #[kani::unwind(40)]
+    fn display_invalid_token() { shown(&ParseError::InvalidToken { location: Ch(b'7') }, b"Invalid token at 7"); }
+    #[kani::proof] #[kani::unwind(40)]
+    fn display_extra_token() { shown(&ParseError::ExtraToken { token: (Ch(b'1'), Ch(b't'), Ch(b'2')) }, b"Extra token t found at 1:2"); }
+    #[kani::proof] #[kani::unwind(60)]
+    fn display_unrecognized_eof_0() { shown(&ParseError::UnrecognizedEof { location: Ch(b'9'), expected: expected_n(0) }, b"Unrecognized EOF found at 9"); }
+    #[kani::proof] #[kani::unwind(60)]
+    fn display_unrecognized_eof_1() { shown(&ParseError::UnrecognizedEof { location: Ch(b'9'), expected: expected_n(1) }, b"Unrecognized EOF found at 9\nExpected one of a"); }
+    #[kani::proof] #[kani::unwind(60)]
+    fn display_unrecognized_token_2() { shown(&ParseError::UnrecognizedToken { token: (Ch(b'1'), Ch(b't'), Ch(b'2')), expected: expected_n(2) }, b"Unrecognized token `t` found at 1:2\nExpected one of a or b"); }
+    #[kani::proof] #[kani::unwind(60)]
+    fn display_unrecognized_token_3() { shown(&ParseError::UnrecognizedToken { token: (Ch(b'1'), Ch(b't'), Ch(b'2')), expected: expected_n(3) }, b"Unrecognized token `t` found at 1:2\nExpected one of a, b or c"); }
+    #[kani::proof] #[kani::unwind(60)]
+    fn display_unrecognized_token_4() { shown(&ParseError::UnrecognizedToken { token: (Ch(b'1'), Ch(b't'), Ch(b'2')), expected: expected_n(4) }, b"Unrecognized token `t` found at 1:2\nExpected one of a, b, c or d"); }
     // @PLAYBACK@
 }
